@@ -160,9 +160,9 @@ Proof. intros m H. apply forallb_forall. unfold mm_ok in H. rewrite Forall_foral
 Definition omm_ok (o : option mmap) : Prop := match o with None => True | Some m => mm_ok m end.
 
 Lemma rc_val_ok : forall v, omm_ok (vmm v) -> qual_ok v ->
-  rc_val v = Ok (mkv (rc (vseq v)) (rev (vqual v)) (option_map (rc_mm (Z.of_nat (length (vseq v)))) (vmm v))).
+  rc_val v = Ok (mkv (rc (vseq v)) (rev (vqual v)) (option_map (rc_mm (Z.of_nat (length (vseq v)))) (vmm v)) (vfeat v) (vmate v)).
 Proof.
-  intros [s q m] Hm Hq. unfold rc_val, qual_ok in *. cbn [vseq vqual vmm] in *.
+  intros [s q m ft mt] Hm Hq. unfold rc_val, qual_ok in *. cbn [vseq vqual vmm vfeat vmate] in *.
   rewrite rc_loop_is_rc.
   assert (Q : rc_qual (length s) q = rev q) by (apply rc_qual_rev; exact Hq).
   unfold rc_qual in Q. destruct q as [|a q0]; cbn [rev] in *; rewrite ?Q;
@@ -174,8 +174,8 @@ Lemma rc_val_involutive : forall v, on_iupac (vseq v) -> qual_ok v -> omm_ok (vm
   exists w, rc_val v = Ok w /\ rc_val w = Ok v.
 Proof.
   intros v Hs Hq Hm. eexists. split; [apply rc_val_ok; assumption|].
-  destruct v as [s q m]. cbn [vseq vqual vmm] in *. destruct (rc_involutive s Hs) as [R1 R2].
-  rewrite rc_val_ok; cbn [vseq vqual vmm].
+  destruct v as [s q m ft mt]. cbn [vseq vqual vmm vfeat vmate] in *. destruct (rc_involutive s Hs) as [R1 R2].
+  rewrite rc_val_ok; cbn [vseq vqual vmm vfeat vmate].
   - rewrite R1, rev_involutive, rc_length. f_equal. f_equal.
     destruct m as [m|]; [|reflexivity]. cbn [option_map]. f_equal. apply rc_mm_involutive. exact Hm.
   - destruct m as [m|]; cbn; [|exact I]. apply rc_mm_involutive. exact Hm.
@@ -260,16 +260,16 @@ Lemma rc_of_sub_val : forall v f t, let len := Z.of_nat (length (vseq v)) in
   exists w rw rv, sub_val v f t false = Ok w /\ rc_val w = Ok rw /\ rc_val v = Ok rv /\
                   sub_val rv (len - t) (len - f) false = Ok rw.
 Proof.
-  intros [s q m] f t len H1 H2 Hq Hm. cbn [vseq vqual vmm] in *.
+  intros [s q m ft mt] f t len H1 H2 Hq Hm. cbn [vseq vqual vmm vfeat vmate] in *.
   assert (Hs : Z.of_nat (length (slice s f t)) = t - f) by (apply slice_length; lia).
-  assert (Hw : sub_val (mkv s q m) f t false =
-               Ok (mkv (slice s f t) (slice q f t) (option_map (sub_mm f len (t - f)) m))).
+  assert (Hw : sub_val (mkv s q m ft mt) f t false =
+               Ok (mkv (slice s f t) (slice q f t) (option_map (sub_mm f len (t - f)) m) [] None)).
   { unfold sub_val. cbn [vseq vqual vmm]. fold len. rewrite sub_window_linear by lia. unfold window.
     replace (f <? t) with true by lia. rewrite Hs. f_equal. f_equal.
     destruct q; [|reflexivity]. unfold slice. rewrite skipn_nil, firstn_nil. reflexivity. }
-  assert (Hq' : qual_ok (mkv s q m)) by (unfold qual_ok; cbn [vseq vqual]; tauto).
-  assert (Hrv := rc_val_ok (mkv s q m) Hm Hq').
-  cbn [vseq vqual vmm] in Hrv. fold len in Hrv.
+  assert (Hq' : qual_ok (mkv s q m ft mt)) by (unfold qual_ok; cbn [vseq vqual]; tauto).
+  assert (Hrv := rc_val_ok (mkv s q m ft mt) Hm Hq').
+  cbn [vseq vqual vmm vfeat vmate] in Hrv. fold len in Hrv.
   eexists. eexists. eexists. split; [exact Hw|]. split; [apply rc_val_ok|split; [exact Hrv|]].
   - cbn [vmm]. destruct m as [m|]; cbn; [|exact I]. apply sub_mm_keys. exact Hm.
   - unfold qual_ok. cbn [vseq vqual]. destruct Hq as [Hq|Hq]; [right|left; subst; unfold slice; rewrite skipn_nil, firstn_nil; reflexivity].
